@@ -27,17 +27,17 @@ def native_filter():
 
 @contract("html5lib.filters.optionaltags.Filter.is_optional_start")
 class IsOptionalStart:
-    props = ("C13",)
+    props = ("C13", "C07")
 
     def inputs(S):
         return dict(self=S.obj("html5lib.filters.optionaltags.Filter"), tagname=S.str("tagname"),
                     previous=walker_token(S, "previous"), next=walker_token(S, "next"))
 
-    @ensures("C13")
+    @ensures("C13", "C07")
     def only_listed_elements(tagname, result):
         return implies(result, tagname in OT.START_OMISSIBLE)
 
-    @ensures("C13")
+    @ensures("C13", "C07")
     def only_where_syntax_allows(tagname, previous, next, result):
         return implies(result, OT.may_omit_start(tagname, previous, next))
 
@@ -47,17 +47,17 @@ class IsOptionalStart:
 
 @contract("html5lib.filters.optionaltags.Filter.is_optional_end")
 class IsOptionalEnd:
-    props = ("C13",)
+    props = ("C13", "C07")
 
     def inputs(S):
         return dict(self=S.obj("html5lib.filters.optionaltags.Filter"), tagname=S.str("tagname"),
                     next=walker_token(S, "next"))
 
-    @ensures("C13")
+    @ensures("C13", "C07")
     def only_listed_elements(tagname, result):
         return implies(result, tagname in OT.END_OMISSIBLE)
 
-    @ensures("C13")
+    @ensures("C13", "C07")
     def only_where_syntax_allows(tagname, next, result):
         return implies(result, OT.may_omit_end(tagname, next))
 
@@ -115,14 +115,14 @@ def iter_drops_only_omissible(yielded, token, previous, next):
 
 @contract("html5lib.filters.optionaltags.Filter.__iter__")
 class Iter:
-    props = ("C13",)
+    props = ("C13", "C07")
 
     def inputs(S):
         return dict(self=S.obj("html5lib.filters.optionaltags.Filter"))
 
-    loops = {"For1": LoopSpec(element=iter_element, props=("C13",),
-                              step=[clause("only_drops", iter_only_drops, "C13"),
-                                    clause("drops_only_omissible", iter_drops_only_omissible, "C13")])}
+    loops = {"For1": LoopSpec(element=iter_element, props=("C13", "C07"),
+                              step=[clause("only_drops", iter_only_drops, "C13", "C07"),
+                                    clause("drops_only_omissible", iter_drops_only_omissible, "C13", "C07")])}
 
 
 def slider_havoc(S, L):
@@ -144,16 +144,16 @@ def slider_step(yielded, pre, token, previous1, previous2):
 
 @contract("html5lib.filters.optionaltags.Filter.slider")
 class Slider:
-    props = ("C13",)
+    props = ("C13", "C07")
     modular = False
 
     def inputs(S):
         return dict(self=S.obj("html5lib.filters.optionaltags.Filter"))
 
-    loops = {"For1": LoopSpec(havoc=slider_havoc, element=slider_element, props=("C13",),
-                              step=[clause("window", slider_step, "C13")])}
+    loops = {"For1": LoopSpec(havoc=slider_havoc, element=slider_element, props=("C13", "C07"),
+                              step=[clause("window", slider_step, "C13", "C07")])}
 
-    @ensures("C13")
+    @ensures("C13", "C07")
     def last_window(result, final):
         # after the source is exhausted exactly one more window (.., last, None) if anything was seen
         return (iff(len(result) == 1, final.previous1 is not None) and len(result) <= 1
